@@ -13,9 +13,11 @@
    * parsing: the model defines the ACCEPTED LANGUAGE and the FIRST error (it stops at the first error_at the
      Rust parser would execute); it is total in the sense "function, first error, or out of fuel"
      (C03_parse_total); a first error carries a line >= 1 (C03_first_error_has_line), also on the whole pipeline
-     (C03_source_error_has_line).  Fuel sufficiency (POutOfFuel never happens with default_fuel) is proved only
-     for the operator expression fragment (C03_parse_fuel_enough_partial, parser agent's Pratt.pratt_roundtrip_tokens);
-     the driver counts POutOfFuel verdicts (0 in every run).
+     (C03_source_error_has_line).  Fuel sufficiency is proved in general:
+     POutOfFuel never happens with default_fuel, on every token list (C03_parse_fuel_enough), and the answer does
+     not depend on the fuel (C03_parse_fuel_monotone / _independent); so the model decides every source
+     (C03_parse_source_decides).  A POutOfFuel verdict seen by the driver would contradict a theorem and is reported
+     as a broken obligation.
    * the tables: the Pratt table, the Precedence and TokenKind enumerations, the keyword table and three
      limits of the model are EQUAL to the ones regenerated from the current compiler.rs / scanner.rs /
      common.rs (C03_rules_table, ...): a changed precedence, a swapped handler, a new keyword or token kind
@@ -27,7 +29,7 @@
    generator on every generated text, the code-emission limits (jump/loop/constant-pool sizes). *)
 From Coq Require Import List NArith Arith Lia.
 From YVGen Require Import Consts Rules Tokens.
-From YV Require Import Utf8 Ast Scanner ScannerProofs ParserRules Parser ParseRun ParserProofs C03Run TotalityProofs.
+From YV Require Import Utf8 Ast Scanner ScannerProofs ParserRules Parser ParseRun ParserProofs C03Run TotalityProofs FuelProofs.
 Import ListNotations.
 
 (* ---------- the tables of the model are the tables of the current source ---------- *)
@@ -112,6 +114,25 @@ Proof. exact Pratt.pratt_roundtrip_tokens. Qed.
 Theorem C03_rules_infix_total : forall k, r_prec (rules_ref k) <> PrecNone -> r_infix (rules_ref k) <> None.
 Proof. exact rules_infix_total. Qed.
 
+(* GENERAL FUEL SUFFICIENCY (FuelProofs.v): on EVERY token list the knot never bottoms out with default_fuel
+   (measure: tokens left, rank of the entry point - every call through `rec` follows a consumed token or goes to a
+   smaller rank; budget 8 * tokens + rank + 1), so the model never abstains; more fuel never changes an answer, so the
+   language defined does not depend on the fuel constant; hence the model DECIDES every source. *)
+Theorem C03_parse_fuel_enough : forall toks, parse_program toks <> POutOfFuel.
+Proof. exact parse_fuel_enough. Qed.
+Theorem C03_parse_fuel_bound : forall toks fuel, 8 * length toks + 3 <= fuel ->
+  run (parse rules_ref fuel) toks <> POutOfFuel.
+Proof. exact parse_fuel_bound. Qed.
+Theorem C03_parse_fuel_monotone : forall rules toks f f', f <= f' ->
+  run (parse rules f) toks <> POutOfFuel -> run (parse rules f') toks = run (parse rules f) toks.
+Proof. exact parse_fuel_monotone. Qed.
+Theorem C03_parse_fuel_independent : forall toks fuel, default_fuel toks <= fuel ->
+  run (parse rules_ref fuel) toks = parse_program toks.
+Proof. exact parse_fuel_independent. Qed.
+Theorem C03_parse_source_decides : forall src,
+  (exists p, parse_source src = POk p) \/ (exists l a m, parse_source src = PErr l a m /\ (1 <= l)%N).
+Proof. exact parse_source_decides. Qed.
+
 Print Assumptions C03_rules_known.
 Print Assumptions C03_rules_table.
 Print Assumptions C03_rules_length.
@@ -133,3 +154,8 @@ Print Assumptions C03_first_error_has_line.
 Print Assumptions C03_source_error_has_line.
 Print Assumptions C03_parse_fuel_enough_partial.
 Print Assumptions C03_rules_infix_total.
+Print Assumptions C03_parse_fuel_enough.
+Print Assumptions C03_parse_fuel_bound.
+Print Assumptions C03_parse_fuel_monotone.
+Print Assumptions C03_parse_fuel_independent.
+Print Assumptions C03_parse_source_decides.
